@@ -446,3 +446,81 @@ def gen_rw_premise(rsmis, rng, n):
             continue
         cases.append(dict(kind="rw-premise", a=a, b=b))
     return cases
+
+
+# ------------------------------------------------------------------ its_decompose on arbitrary ITS-shaped graphs (model/C01_DecRaw.v)
+# case = {"kind": "dec-raw", "nodes": [[id, None | [g5, h5 | None]], ...], "edges": [[u, v, None | [a, b]], ...]}
+#   g5 / h5 = [element, aromatic, hcount, charge, neighbors]; None = typesGH absent / empty product tuple / order absent
+
+def _raw_nx(case):
+    import networkx as nx
+    I = nx.Graph()
+    for n, t in case["nodes"]:
+        if t is None:
+            I.add_node(n, element="C")
+        else:
+            g, h = t
+            I.add_node(n, typesGH=(tuple(g), tuple(h) if h is not None else ()))
+    for u, v, o in case["edges"]:
+        if o is None:
+            I.add_edge(u, v, standard_order=0)
+        else:
+            I.add_edge(u, v, order=(o[0], o[1]))
+    return I
+
+
+def _obs_ogl(G):
+    ns = []
+    for n, d in G.nodes(data=True):
+        if not d:
+            ns.append([n, []])
+        else:
+            odd = sorted(set(d) - set(E.NODE_KEYS)) + sorted("missing:" + k for k in set(E.NODE_KEYS) - set(d))
+            row = [n, E.elem_code(d.get("element", "?")), E._bool(d.get("aromatic", False)), E._int(d.get("hcount", -99)),
+                   E._int(d.get("charge", -99)), [], E._int(d.get("atom_map", -99))]
+            if odd:
+                row.append(odd)
+            ns.append([n, [row]])
+    es = [[min(u, v), max(u, v), E.half(d["order"])] for u, v, d in G.edges(data=True)]
+    return [S(ns), S(es)]
+
+
+def obs_dec_raw(case):
+    from synkit.Graph.ITS.its_decompose import its_decompose
+    G, H = its_decompose(_raw_nx(case))
+    return [_obs_ogl(G), _obs_ogl(H)]
+
+
+def coq_dec_raw(case):
+    def na(t):
+        return E.coq_nattr(t)
+    ns = []
+    for n, t in case["nodes"]:
+        ns.append("(%s, %s)" % (E.cN(n), "None" if t is None else "Some (%s, %s)" % (na(t[0]), "None" if t[1] is None else "Some %s" % na(t[1]))))
+    es = []
+    for u, v, o in case["edges"]:
+        es.append("(%s, %s, %s)" % (E.cN(u), E.cN(v), "None" if o is None else "Some ((%d), (%d))" % (E.half(o[0]), E.half(o[1]))))
+    return "run_dec_raw (LG [%s] [%s])" % ("; ".join(ns), "; ".join(es))
+
+
+def gen_dec_raw(rng, n):
+    cases = []
+    for _ in range(n):
+        k = rng.randint(1, 7)
+        ids = rng.sample(range(0, 40), k)
+
+        def tup():
+            return [rng.choice(("C", "H", "O", "N", "Cl", "*", "")), rng.random() < 0.2, rng.choice((0, 0, 1, 2, 3)), rng.choice((0, 0, 1, -1)), []]
+        nodes = []
+        for i in ids:
+            z = rng.random()
+            nodes.append([i, None if z < 0.2 else [tup(), None if z < 0.4 else tup()]])
+        edges = []
+        for a in range(k):
+            for b in range(a + 1, k):
+                if rng.random() < 0.4:
+                    u, v = (ids[a], ids[b]) if rng.random() < 0.5 else (ids[b], ids[a])
+                    edges.append([u, v, None if rng.random() < 0.15 else [rng.choice((0, 0, 1, 1.5, 2, 3)), rng.choice((0, 0, 1, 1.5, 2))]])
+        rng.shuffle(edges)
+        cases.append(dict(kind="dec-raw", nodes=nodes, edges=edges))
+    return cases
